@@ -126,6 +126,7 @@ Proof.
     destruct (lget (ptrs s) (class_key pfx)) as [[z|cls off|]|]; try discriminate. apply CALL. exact H.
   - (* SNewObj *)
     apply bind_Ok in H. destruct H as [vs [Hv H]]. rewrite Hv. cbn [bind].
+    match goal with |- context [negb ?b] => destruct (negb b) end; [exact H|].
     destruct ctor as [fname|]; [|exact H].
     destruct (lget prog fname) as [f|]; [|discriminate].
     apply bind_Ok in H. destruct H as [l [Hl H]]. rewrite Hl. cbn [bind].
